@@ -182,7 +182,7 @@ macro_rules! rec_flavor_private {
 }
 
 macro_rules! rec_universe {
-    ($modname:ident, $uname:expr, $flavor:ident, $params:ident, $p2params:ty, $p2cfg:expr, $defperm:path) => {
+    ($modname:ident, $uname:expr, $flavor:ident, $params:ident, $enable:ident, $p2params:ty, $p2cfg:expr, $defperm:path) => {
         pub mod $modname {
             use p3_batch_stark::CommonData;
             use p3_circuit::CircuitBuilder;
@@ -235,7 +235,7 @@ macro_rules! rec_universe {
 
             fn verifier_builder() -> CircuitBuilder<Challenge> {
                 let mut cb = CircuitBuilder::new();
-                cb.enable_poseidon2_perm::<$p2params, _>(generate_poseidon2_trace::<Challenge, $p2params>, $defperm());
+                cb.$enable::<$p2params, _>(generate_poseidon2_trace::<Challenge, $p2params>, $defperm());
                 cb.enable_recompose::<F>(generate_recompose_trace::<F, Challenge>);
                 cb
             }
@@ -583,6 +583,7 @@ rec_universe!(
     "U-KB4",
     plain,
     koala_bear_params,
+    enable_poseidon2_perm,
     p3_poseidon2_circuit_air::KoalaBearD4Width16,
     p3_circuit::ops::Poseidon2Config::KOALA_BEAR_D4_W16,
     p3_koala_bear::default_koalabear_poseidon2_16
@@ -592,6 +593,7 @@ rec_universe!(
     "U-BB4",
     plain,
     baby_bear_params,
+    enable_poseidon2_perm,
     p3_poseidon2_circuit_air::BabyBearD4Width16,
     p3_circuit::ops::Poseidon2Config::BABY_BEAR_D4_W16,
     p3_baby_bear::default_babybear_poseidon2_16
@@ -601,6 +603,7 @@ rec_universe!(
     "U-KB4-ZK",
     zk,
     koala_bear_params,
+    enable_poseidon2_perm,
     p3_poseidon2_circuit_air::KoalaBearD4Width16,
     p3_circuit::ops::Poseidon2Config::KOALA_BEAR_D4_W16,
     p3_koala_bear::default_koalabear_poseidon2_16
@@ -610,6 +613,7 @@ rec_universe!(
     "U-KB4-ZKSALT",
     zksalt,
     koala_bear_params,
+    enable_poseidon2_perm,
     p3_poseidon2_circuit_air::KoalaBearD4Width16,
     p3_circuit::ops::Poseidon2Config::KOALA_BEAR_D4_W16,
     p3_koala_bear::default_koalabear_poseidon2_16
@@ -618,12 +622,13 @@ rec_universe!(
 /// Universe of run `idx`: three in ten runs each for the two plain universes, one each for the
 /// hiding-PCS universes (plain and salted MMCS), two for the custom-AIR batch universe.
 pub fn universe_of(idx: u64) -> &'static str {
-    match idx % 10 {
+    match idx % 12 {
         0 | 2 | 4 => "U-KB4",
         1 | 3 | 5 => "U-BB4",
         6 => "U-KB4-ZK",
         7 => "U-KB4-ZKSALT",
-        _ => "U-KB4-CUSTOM",
+        8 | 9 => "U-KB4-CUSTOM",
+        _ => "U-GL2R",
     }
 }
 
@@ -648,6 +653,10 @@ macro_rules! with_rec_universe {
                 type $U = $crate::reccustom::U;
                 $body
             }
+            "U-GL2R" => {
+                type $U = $crate::rec::gl2::U;
+                $body
+            }
             _ => {
                 type $U = $crate::rec::kb4::U;
                 $body
@@ -655,3 +664,18 @@ macro_rules! with_rec_universe {
         }
     };
 }
+
+pub fn gl_default_perm() -> p3_goldilocks::Poseidon2Goldilocks<8> {
+    let mut rng = <rand::rngs::SmallRng as rand::SeedableRng>::seed_from_u64(1);
+    p3_goldilocks::Poseidon2Goldilocks::<8>::new_from_rng_128(&mut rng)
+}
+rec_universe!(
+    gl2,
+    "U-GL2R",
+    plain,
+    goldilocks_params,
+    enable_poseidon2_perm_width_8,
+    p3_circuit::ops::GoldilocksD2Width8,
+    p3_circuit::ops::Poseidon2Config::GOLDILOCKS_D2_W8,
+    crate::rec::gl_default_perm
+);
